@@ -327,6 +327,53 @@ static int do_grow(int nw, char **w) {
     return 1;
 }
 
+/* ---- `hugeseq <pieces> <piecesize>` (thorough tier only, no model line): a list and a grow buffer
+ * holding more than 2^31 bytes in total; datasize, toarray (size and every byte) and a getnext walk
+ * are verified against the generating function. Prints `ok` or the first mismatch. */
+static unsigned char hs_byte(size_t piece, size_t off) { return (unsigned char) ((piece * 131u + off * 7u + (off >> 8)) & 0xff); }
+static int hs_check_flat(const unsigned char *a, size_t pieces, size_t ps, const char *what) {
+    for (size_t p = 0; p < pieces; p++)
+        for (size_t o = 0; o < ps; o += (o < 64 || o + 64 >= ps) ? 1 : 997)
+            if (a[p * ps + o] != hs_byte(p, o)) { printf("mismatch: %s byte %zu of piece %zu", what, o, p); return 0; }
+    return 1;
+}
+static void do_hugeseq(size_t pieces, size_t ps) {
+    unsigned char *el = malloc(ps);
+    qlist_t *l = qlist(0); qgrow_t *g = qgrow(0);
+    int ok = 0;
+    if (!el || !l || !g) { printf("no-memory"); goto out; }
+    for (size_t p = 0; p < pieces; p++) {
+        for (size_t o = 0; o < ps; o++) el[o] = hs_byte(p, o);
+        if (!qlist_addlast(l, el, ps) || !qgrow_add(g, el, ps)) { printf("mismatch: add #%zu failed (%s)", p, errname(errno)); goto out; }
+    }
+    if (qlist_size(l) != pieces || qlist_datasize(l) != pieces * ps || qgrow_size(g) != pieces || qgrow_datasize(g) != pieces * ps) {
+        printf("mismatch: size/datasize %zu/%zu, expected %zu/%zu", qlist_size(l), qlist_datasize(l), pieces, pieces * ps); goto out;
+    }
+    for (int which = 0; which < 2; which++) {
+        size_t sz = 12345;
+        unsigned char *a = which ? qgrow_toarray(g, &sz) : qlist_toarray(l, &sz);
+        if (a == NULL) { printf("no-memory"); goto out; }
+        if (sz != pieces * ps) { printf("mismatch: %s toarray reports size %zu, expected %zu", which ? "grow" : "list", sz, pieces * ps); vf_free(a); goto out; }
+        int good = hs_check_flat(a, pieces, ps, which ? "grow toarray" : "list toarray");
+        vf_free(a);
+        if (!good) goto out;
+    }
+    {
+        qlist_obj_t o; memset(&o, 0, sizeof(o)); size_t p = 0;
+        while (qlist_getnext(l, &o, false)) {
+            if (p >= pieces || o.size != ps || ((unsigned char *) o.data)[ps - 1] != hs_byte(p, ps - 1)) { printf("mismatch: walk element %zu", p); goto out; }
+            p++;
+        }
+        if (p != pieces) { printf("mismatch: walk ended after %zu of %zu", p, pieces); goto out; }
+    }
+    ok = 1;
+out:
+    if (l) qlist_free(l);
+    if (g) qgrow_free(g);
+    free(el);
+    if (ok) printf("ok live=%ld", aw_live);
+}
+
 int main(void) {
     char *line = NULL; size_t cap = 0; ssize_t len;
     harness_init();
@@ -337,6 +384,10 @@ int main(void) {
         if ((!strcmp(w[0], "fault") || !strcmp(w[0], "faultfrom")) && nw == 2) {
             aw_arm(atol(w[1]), w[0][5] == 'f');
             printf("ok\n"); fflush(stdout); continue;
+        }
+        if (!strcmp(w[0], "hugeseq") && nw == 3) {
+            do_hugeseq(strtoull(w[1], NULL, 10), strtoull(w[2], NULL, 10));
+            printf("\n"); fflush(stdout); continue;
         }
         if (!strcmp(w[0], "end") && nw == 1) {
             /* C11: once the container is released every block it allocated is freed;
